@@ -373,6 +373,9 @@ SatOutcome(r, init, evs) ==
     IF ~LiveEdge(r) \/ ~LiveEdge(init) \/ Len(evs) = 0 \/ \E x \in 1..Len(evs) : ~LiveEdge(evs[x]) THEN Fail("ANY")
     ELSE
     LET FR == fors[edges[r].f]  FI == fors[edges[init].f]  FE == fors[edges[evs[1]].f] IN
+    \* "inset and outset must be the same forest" (sat_pregen.cc)
+    IF edges[r].f # edges[init].f THEN Fail("FOREST_MISMATCH")
+    ELSE
     IF /\ \A x \in 1..Len(evs) : edges[evs[x]].f = edges[evs[1]].f
        /\ BoolMT(FR) /\ BoolMT(FI) /\ BoolMT(FE) /\ ~FR.rel /\ ~FI.rel /\ FE.rel
        /\ FR.d = FI.d /\ FR.d = FE.d
